@@ -106,9 +106,9 @@ def convertSteps (ndigits : Int) (noneGood : Bool) : DocM Unit := do
   opRemoveTitleMetaDesc
   applyStyleAttributes
   let _ ← resolveNestedSvgs
+  resolveUse
   shapesToPaths
   expandShorthand
-  resolveUse
   simplify
   evenoddToNonzero
   normalizeOpacity
